@@ -59,6 +59,12 @@ def long_strings():
     return st.tuples(st.sampled_from(LONG_PATTERNS), st.sampled_from(LONG_LENGTHS)).map(lambda t: t[0] * max(1, t[1] // len(t[0])))
 
 
+def long_string_documents(small):
+    """a small document next to / below one long string or long key"""
+    return st.tuples(long_strings(), small, st.integers(0, 3)).map(
+        lambda t: [["A", [["S", t[0]], t[1]]], ["O", [[t[0], t[1]]]], ["O", [[b"k", ["S", t[0]]], [b"after", t[1]]]], ["A", [t[1], ["A", [["S", t[0]]]]]]][t[2]])
+
+
 def with_long(strings, share=40):
     """strings, one in `share` of which is a long one"""
     return weighted((share - 1, strings), (1, long_strings()))
